@@ -408,16 +408,18 @@ Theorem to_matrix44_translation_clipped :
 Proof. exact zto_matrix44_translation_lemma. Qed.
 Print Assumptions to_matrix44_translation_clipped.
 
-(* non-vacuity: a 6-vector with translations 3e10, -5, -2e10 and no rotation: the matrix has translation
-   column (1e10, -5, -1e10) (clipped at MAX_DIST = 1e10 as read from the source) *)
+(* non-vacuity: a 6-vector with translations 3*MAX_DIST, -5, -2*MAX_DIST and no rotation: the matrix has
+   translation column (MAX_DIST, -5, -MAX_DIST), with MAX_DIST as read from the source (1e10) *)
 Example to_matrix44_clip_concrete :
-  let t := [30000000000; -5; -20000000000; 0; 0; 0]%Z in
+  let d := src_max_dist in
+  let t := [3 * d; -5; -2 * d; 0; 0; 0]%Z in
   zto_matrix44 6 (fun _ => zI3) (fun _ => zI3) (fun _ => 0%Z) t
-  = [[1; 0; 0; 10000000000]; [0; 1; 0; -5]; [0; 0; 1; -10000000000]; [0; 0; 0; 1]]%Z
+  = [[1; 0; 0; d]; [0; 1; 0; -5]; [0; 0; 1; - d]; [0; 0; 0; 1]]%Z
+  /\ (5 < d)%Z
   /\ ~ Forall (in_range src_max_dist) (zslice src_clip_trans_lo src_clip_trans_n t)
   /\ clip_vec 7 [-9; -7; 0; 7; 8]%Z = [-7; -7; 0; 7; 7]%Z.
 Proof.
-  split; [vm_compute; reflexivity|]. split; [|vm_compute; reflexivity].
+  split; [vm_compute; reflexivity|]. split; [vm_compute; reflexivity|]. split; [|vm_compute; reflexivity].
   intros H. inversion H as [|a b Ha Hb]; subst. vm_compute in Ha. destruct Ha as [_ Ha]. apply Ha. reflexivity.
 Qed.
 
